@@ -30,7 +30,13 @@ def cases(tier, seed, shard, nshards):
     for spec in gen.enum_iter_specs(small=(tier == "quick")):
         idx += 1
         if idx % nshards == shard:
-            yield {"spec": spec, "flav": "list"}
+            if spec.get("same"):
+                # one single-use iterator as several arguments: iterator flavours only (a list given twice is two
+                # independent iterations)
+                for fl in ("sync_iter", "async_class", "async_gen", "sync_gen"):
+                    yield {"spec": spec, "flav": fl}
+            else:
+                yield {"spec": spec, "flav": "list"}
     rng = random.Random(f"C01-{seed}-{shard}")
     n = N_RANDOM[tier] // nshards
     names = gen.ITER_TOOL_NAMES + ["tee"]
